@@ -241,7 +241,20 @@ def build_op(ctx, rng, x, allow_rank_change=True):
         def f(a):
             u, s, vh = sr.linalg.svd_truncated(a, max_bond=mb, absorb=None)
             rec = sr.tensordot(sr.multiply_diagonal(u, s, 1), vh, 1, preserve_array=True)
-            return embed(rec, a.indices), np.sort(np.concatenate([np.asarray(b) for b in s.blocks.values()]))
+            kept = np.sort(np.concatenate([np.asarray(b) for b in s.blocks.values()]))
+            # a bond limit that cuts through a cluster of (numerically) equal singular values
+            # keeps an arbitrary vector of a degenerate subspace: the truncated product is not
+            # unique then (x and -x need not choose alike); only the kept values are compared
+            # (without a cutoff the library shares the bond limit out among the charge sectors,
+            # so the cut is looked at sector by sector)
+            full = {c_: np.sort(np.asarray(b))[::-1] for c_, b in sr.linalg.svd(a)[1].blocks.items()}
+            top = max((float(v[0]) for v in full.values() if len(v)), default=0.0)
+            for c_, v in full.items():
+                k_ = len(np.asarray(s.blocks[c_])) if c_ in s.blocks else 0
+                if 0 < k_ < len(v) and v[k_ - 1] - v[k_] <= 1e-9 * top:
+                    ctx.count("inconclusive", "svd_truncated-cut-inside-degenerate-cluster")
+                    return np.zeros(1), kept
+            return embed(rec, a.indices), kept
 
         return name, f, 1e-9
     if name == "eigh":
